@@ -1,4 +1,5 @@
 """C16 -- policy queries count only Allow statements and see every principal."""
+import copy
 import json
 import re
 import resource
@@ -237,8 +238,18 @@ def gen_statement(rng, fresh, cat, idx, plain_actions, effect=None):
     elif r < 0.82:
         st.append(("Resource", gen_resource_elem(rng, fresh)))
         st.append(("NotResource", gen_resource_elem(rng, fresh)))
+    if rng.random() < 0.3:
+        # a conditional statement: the queries of this property do not look at the Condition block -- a conditional Allow counts
+        # like any other Allow (audit experiment 1: "skip Allow statements that carry a Condition" went unnoticed)
+        st.append(("Condition", copy.deepcopy(rng.choice(STMT_CONDITIONS))))
     rng.shuffle(st)
     return dict(st)
+
+
+STMT_CONDITIONS = [{"StringEquals": {"aws:PrincipalOrgID": "o-123"}}, {"Bool": {"aws:SecureTransport": "true"}},
+                   {"IpAddress": {"aws:SourceIp": ["192.0.2.0/24", "2001:db8::/32"]}}, {"StringLike": {"s3:prefix": ["home/*"]}},
+                   {"ArnLike": {"aws:SourceArn": "arn:aws:s3:::b*"}, "NumericLessThan": {"s3:max-keys": "10"}},
+                   {"DateLessThan": {"aws:CurrentTime": "2030-01-01T00:00:00Z"}}, {"Null": {"aws:TokenIssueTime": "false"}}]
 
 
 def gen_doc(rng, cat, plain_actions=False):
@@ -393,6 +404,8 @@ def stmt_tags(s):
     t = set()
     if not isinstance(s, dict):
         return {"not-an-object"}
+    if "Condition" in s:
+        t.add("conditional")
     eff = s.get("Effect")
     if isinstance(eff, str):
         lo = eff.lower()
